@@ -526,6 +526,25 @@ func runRaw(rc rawCase) (vs []viol, evals, nontrivial int) {
 	}
 	stage = ""
 	observe()
+	if rc.Incremental && len(vs) == 0 && len(rc.Edges) > 0 {
+		// everything cleared at once, observed, and registered again
+		bus.ClearUpcasts()
+		full := g
+		g = up.NewGraph()
+		stage = " [replay after ClearUpcasts]"
+		observe()
+		g = full
+		for _, e := range rc.Edges {
+			if err := eventbus.RegisterUpcastFunc(bus, e.From, e.To, mk(e)); err != nil {
+				bad("setup", "registration of an acyclic graph rejected after ClearUpcasts (see C16)", "RegisterUpcastFunc(%s,%s): %v", e.From, e.To, err)
+				return vs, evals, nontrivial
+			}
+		}
+		if len(vs) == 0 {
+			stage = " [replay after ClearUpcasts and registering everything again]"
+			observe()
+		}
+	}
 	if rc.Incremental && len(vs) == 0 {
 		for _, src := range g.Sources() {
 			bus.ClearUpcastsForType(src)
